@@ -445,8 +445,93 @@ def suite_swath(ctx):
                  sample={"input": inp} if hashed_then_modified else None)
 
 
+def suite_area_full_slice(ctx):
+    """a full slice of an area, in every spelling (area[:, :], area[0:h, 0:w], negative / out-of-range bounds, twice in a row, of a copy),
+    is the same area: ==, same hash(), same update_hash digest, same resampler cache keys - for extents that are not round numbers
+    (decimal metres, as area files have them) and many shapes, whether or not the parent was hashed before; a real crop is a different
+    area.  Both sides of every comparison come from the real code; no model is involved."""
+    from pyproj import CRS
+    r = ctx.rng
+    other = _mk("EPSG:4326", 7, 3, (0, 0, 7, 3))
+    stere_d = {"a": "6378144.0", "b": "6356759.0", "lat_0": "50.00", "lat_ts": "50.00", "lon_0": "8.00", "proj": "stere"}
+    crss = [stere_d, {"proj": "laea", "lat_0": 52, "lon_0": 10, "x_0": 4321000, "y_0": 3210000, "ellps": "GRS80"}, {"proj": "geos", "h": 35785831, "ellps": "WGS84"},
+            "EPSG:32633", "EPSG:3035", "+proj=stere +lat_0=90 +lat_ts=60 +lon_0=0 +ellps=WGS84", {"proj": "merc", "ellps": "WGS84"}, "EPSG:3857"]
+    areas = []
+    # a classic 3 km polar-stereographic area file entry, at several grid sizes
+    classic = (-1370912.72, -909968.64, 1029087.28, 1490031.36)
+    shapes = [(800, 800), (425, 425), (640, 480), (1024, 1024), (100, 100), (333, 777)]
+    for w, h in (shapes if not ctx.quick else shapes[:3] + r.sample(shapes[3:], 1)):
+        areas.append((stere_d, w, h, classic))
+    for _ in range(40 if ctx.quick else 400):
+        crs = r.choice(crss)
+        w, h = r.randrange(1, 1200), r.randrange(1, 1200)
+        if r.random() < 0.3:
+            w, h = r.randrange(1, 12), r.randrange(1, 12)
+        dec = r.choice([2, 4, 1, 10])
+        x0, y0 = round(r.uniform(-5.0e6, 5.0e6), dec), round(r.uniform(-5.0e6, 5.0e6), dec)
+        px, py = r.choice([round(r.uniform(50, 5000), 3), r.choice([250.0, 1000.0, 3000.0, 4000.0])]), r.choice([round(r.uniform(50, 5000), 3), 3000.0])
+        ext = [x0, y0, round(x0 + w * px, dec), round(y0 + h * py, dec)]
+        if r.random() < 0.2:      # y (and sometimes x) running max -> min
+            ext[1], ext[3] = ext[3], ext[1]
+            if r.random() < 0.5:
+                ext[0], ext[2] = ext[2], ext[0]
+        areas.append((crs, w, h, tuple(ext)))
+    for crs, w, h, ext in areas:
+        with warnings.catch_warnings():
+            warnings.simplefilter("ignore")
+            wkt0 = CRS.from_user_input(crs).to_wkt()
+            rerendered = CRS.from_wkt(wkt0).to_wkt() != wkt0      # pyproj re-renders its own WKT differently (finding F26)
+        for hash_first in (False, True):
+            area = _mk(crs, w, h, ext)
+            if hash_first:
+                hash(area)
+            with warnings.catch_warnings():
+                warnings.simplefilter("ignore")
+                twins = [("area[:, :]", area[:, :]), ("area[0:h, 0:w]", area[0:h, 0:w]), ("area[-h:, :w+3]", area[-h:, :w + 3]),
+                         ("area[:, :][:, :]", area[:, :][:, :]), ("area.copy()[:, :]", area.copy()[:, :]), ("area[None:h+1, -w-2:None]", area[None:h + 1, -w - 2:None])]
+                crops = [("area[1:, :]", area[1:, :])] if h > 1 else []
+                crops += [("area[:, :w-1]", area[:, :w - 1])] if w > 1 else []
+            dig = area.update_hash().hexdigest()
+            keys = _keys(area, other, radius=10.0) + _keys(other, area, radius=10.0)
+            for nm, tw in twins:
+                inp = {"crs": str(crs)[:90], "shape": [h, w], "extent": list(ext), "parent_hashed_first": hash_first, "twin": nm}
+                probs = []
+                if not (tw == area and area == tw) or (tw != area):
+                    probs.append("compare unequal")
+                if hash(tw) != hash(area):
+                    probs.append("hash() differs")
+                if tw.update_hash().hexdigest() != dig:
+                    probs.append("update_hash digest differs")
+                if _keys(tw, other, radius=10.0) + _keys(other, tw, radius=10.0) != keys:
+                    probs.append("resampler cache key differs")
+                if {area: 1}.get(tw) != 1:
+                    probs.append("not found in a dict under its twin")
+                same_numbers = tuple(float(v) for v in tw.area_extent) == tuple(float(v) for v in area.area_extent) and tw.shape == area.shape
+                if probs and (not rerendered or not same_numbers or "compare unequal" in probs):
+                    ctx.fail("AreaDefinition.__getitem__", f"{nm} of an area is not the same area: " + ", ".join(probs), inp,
+                             {"extent_of_slice": [float(v) for v in tw.area_extent], "extent_of_area": [float(v) for v in area.area_extent],
+                              "shape_of_slice": list(tw.shape)}, tags={"kind": "full-slice"}, size=10)
+                elif probs:
+                    ctx.fail("AreaDefinition.update_hash", f"{nm} of an area whose CRS text pyproj re-renders differently: " + ", ".join(probs), inp,
+                             tags={"kind": "wkt-rerendering-differs"}, size=10)
+                ctx.case("area.full_slice", (str(crs)[:40], w, h, ext, hash_first, nm), nontrivial=True,
+                         sample={"input": inp} if nm == "area[0:h, 0:w]" and not hash_first else None)
+            for nm, cr in crops:
+                inp = {"crs": str(crs)[:90], "shape": [h, w], "extent": list(ext), "parent_hashed_first": hash_first, "crop": nm}
+                probs = []
+                if cr == area or area == cr or not (cr != area):
+                    probs.append("compare equal")
+                if cr.update_hash().hexdigest() == dig or hash(cr) == hash(area):
+                    probs.append("same digest / hash()")
+                if probs:
+                    ctx.fail("AreaDefinition.__getitem__", f"{nm} (a real crop) of an area: " + ", ".join(probs), inp, tags={"kind": "crop"}, size=10)
+                ctx.case("area.full_slice.crop", (str(crs)[:40], w, h, ext, hash_first, nm), nontrivial=True)
+        ctx.count("area.full_slice." + ("rerendered_crs" if rerendered else "stable_crs"))
+
+
 def run(ctx):
     suite_area_spellings(ctx)
     suite_area_perturb(ctx)
     suite_eq_boundary(ctx)
     suite_swath(ctx)
+    suite_area_full_slice(ctx)
